@@ -14,7 +14,11 @@ RULE = ("product explorer.  dense: every (shape, ordered set of disjoint equal-l
         "equal-sized members, argument form) x data family {generic distinct integers (multiples of the group "
         "order so that averages are exact; float64 and int64 holders), constant, symmetric in the groups, symmetric "
         "in all groups but one, symmetric under the permutations of all but one member of every group, "
-        "symmetric with one cell of a non-trivial orbit perturbed (every such cell within the tier cap)} x "
+        "symmetric with one cell of a non-trivial orbit perturbed (every such cell within the tier cap) x "
+        "perturbation magnitude {2*prod|g|! (an integer step), 2^-30 (exactly representable, far below any "
+        "plausible tolerance), 1 ulp (np.nextafter)}; the two small magnitudes exercise the symmetry test only "
+        "(exactness of the test: bitwise different => not symmetric, details = true max difference), because "
+        "their averages are not exact} x "
         "{symmetrize new/old, issymmetric new/old x return_details}; oracle = explicit average / explicit "
         "invariance test over the product of the per-group permutation groups (mc/refmodel.py), compared "
         "bitwise (both versions are compared with the same exact reference, which also decides that they agree).  Kruskal: every (order, size, rank, weight sign pattern, factor family) ; oracle = "
@@ -23,7 +27,8 @@ RULE = ("product explorer.  dense: every (shape, ordered set of disjoint equal-l
 ASSUMPTIONS = [
     "reference semantics in mc/refmodel.py (symmetrize, is_symmetric, kruskal) are correct",
     "dense data are integers that are multiples of prod_g |g|!, so every average is exact in float64 and the "
-    "oracle is bitwise equality",
+    "oracle is bitwise equality (the 2^-30 / 1-ulp perturbed inputs are never symmetrised; for them only "
+    "issymmetric is asserted, whose reference is a bitwise invariance test and an exact float subtraction)",
     "grps is passed the way the docstrings show it: None, a 1-D integer ndarray (one group) or a 2-D integer "
     "ndarray (one group per row, hence equal group lengths)",
     "return_details semantics: one row per (group, permutation of the group); perms row = the full mode "
@@ -37,15 +42,19 @@ BOUNDS = {
     "quick": "dense: shapes of order 2-4 with sizes in {2,3} plus singleton-mode shapes of order <= 3; every "
              "ordered selection of disjoint groups (group length 1..N, 1..N/len groups, unsorted members, both "
              "group orders), forms None/1-D/2-D; perturbations: every cell of a non-trivial orbit when <= 16 "
-             "such cells else 4 spread cells; Kruskal: order 2-4 x size 2-3 x rank 1-2 x weights in {2,-1}^R x "
+             "such cells else 4 spread cells, each at the 3 magnitudes {2*prod|g|!, 2^-30, 1 ulp}; Kruskal: order 2-4 x size 2-3 x rank 1-2 x weights in {2,-1}^R x "
              "5 factor families",
     "thorough": "dense: adds order 5 with sizes in {2,3} (<= 108 cells) and order 6 size 2 (canonical group "
-                "sets + reversed members); perturbations: every cell when <= 81 else 12 spread cells; Kruskal: "
+                "sets + reversed members); perturbations: every cell when <= 81 else 12 spread cells, each at 3 magnitudes; Kruskal: "
                 "order 2-5 x size 2-3 x rank 1-3 x weights in {2,-1,0}^R (rank 3: {2,-1}^3) x 5 families",
 }
 CHUNK = 8
 
 DATA_ALL = ("generic", "const", "sym", "sym_pert")
+# magnitude of the single-cell perturbation of a symmetric tensor: an integer step (averages stay exact), an exactly
+# representable tiny absolute step, and the smallest possible step (1 ulp).  The symmetry test is EXACT, so all three
+# make the tensor asymmetric.
+PERT_MAGS = ("big", "tiny", "ulp")
 
 
 # ---------------------------------------------------------------------------
@@ -195,7 +204,7 @@ def pert_choices(shape, groups, cap, spread):
     return [mv[i] for i in idx]
 
 
-def dense_data(shape, groups, data, pert, vseed):
+def dense_data(shape, groups, data, pert, vseed, mag="big"):
     shape = tuple(shape)
     G = _generic(shape, groups, vseed)
     if data == "generic":
@@ -214,7 +223,14 @@ def dense_data(shape, groups, data, pert, vseed):
     if data == "sym_pert":
         A = rm.symmetrize(G, groups)
         sub = rm.cells(shape)[pert]
-        A[sub] = A[sub] + 2.0 * _mult(groups)
+        if mag == "big":
+            A[sub] = A[sub] + 2.0 * _mult(groups)
+        elif mag == "tiny":
+            A[sub] = A[sub] + 2.0 ** -30
+        elif mag == "ulp":
+            A[sub] = np.nextafter(A[sub], np.inf)
+        else:
+            raise ValueError(mag)
         return A
     raise ValueError(data)
 
@@ -320,34 +336,42 @@ def _check_issym(p, ctx, A, groups, g, want, op, vprefix="", dtype="float"):
 
 def _dense_variants(case):
     shape, groups = tuple(case["shape"]), case["grps"]
-    out = [("generic", None, "all"), ("const", None, "all"), ("sym", None, "all"),
-           ("generic", None, "all:int"), ("sym", None, "all:int")]
+    out = [("generic", None, "all", "big"), ("const", None, "all", "big"), ("sym", None, "all", "big"),
+           ("generic", None, "all:int", "big"), ("sym", None, "all:int", "big")]
     if len(groups) > 1:
         for j in range(len(groups)):
-            out.append((f"partial:{j}", None, "all"))
+            out.append((f"partial:{j}", None, "all", "big"))
     if len(groups[0]) >= 3:
-        out.append(("subsym:first", None, "all"))
-        out.append(("subsym:last", None, "all"))
+        out.append(("subsym:first", None, "all", "big"))
+        out.append(("subsym:last", None, "all", "big"))
     pc = pert_choices(shape, groups, case.get("pert_cap", 16), case.get("pert_spread", 4))
     for i, l in enumerate(pc):
-        out.append(("sym_pert", l, "all" if i == len(pc) // 2 else "issym"))
+        out.append(("sym_pert", l, "all" if i == len(pc) // 2 else "issym", "big"))
+    # the same cells at the small magnitudes: symmetry test only (averages of such data are not exact)
+    for mag in PERT_MAGS[1:]:
+        for l in pc:
+            out.append(("sym_pert", l, "issym", mag))
     return out
 
 
 def _run_dense(case, ctx):
     if "data" in case:
-        variants = [(case["data"], case.get("pert"), case.get("ops", "all"))]
+        variants = [(case["data"], case.get("pert"), case.get("ops", "all"), case.get("mag", "big"))]
     else:
         variants = _dense_variants(case)
-    for data, pert, ops in variants:
-        sub = {k: v for k, v in case.items() if k not in ("data", "pert", "ops")}
-        sub.update(data=data, pert=pert, ops=ops)
+    for data, pert, ops, mag in variants:
+        sub = {k: v for k, v in case.items() if k not in ("data", "pert", "ops", "mag")}
+        sub.update(data=data, pert=pert, ops=ops, mag=mag)
         _dense_one(sub, ctx)
 
 
 def _dense_one(case, ctx):
     shape, groups, form = tuple(case["shape"]), case["grps"], case["form"]
-    A = dense_data(shape, groups, case["data"], case["pert"], case["vseed"])
+    mag = case.get("mag", "big")
+    A = dense_data(shape, groups, case["data"], case["pert"], case["vseed"], mag)
+    if mag != "big":
+        assert case["ops"] == "issym", "harness: small perturbations are for the symmetry test only"
+        ctx.flag("pert_" + mag)
     g = _garg(groups, form)
     p = Probe(ctx, case)
     ctx.state()
